@@ -28,6 +28,17 @@ pub enum T01 {
     RcGraph,
     /// borrowed &str struct (in-memory entry points only)
     Borrowed,
+    /// a target whose Deserialize impl returns Ok without touching the deserializer
+    NoOp,
+}
+
+/// serde allows a `Deserialize` impl to ignore its input; the entry points must still terminate.
+#[derive(Debug)]
+struct NoOpT;
+impl<'de> Deserialize<'de> for NoOpT {
+    fn deserialize<D: serde::Deserializer<'de>>(_d: D) -> Result<Self, D::Error> {
+        Ok(NoOpT)
+    }
 }
 
 #[derive(Debug, Deserialize)]
@@ -501,6 +512,7 @@ pub fn exec(c: &TotalCase, st: &mut Stats) -> Vec<Viol> {
         T01::Bytes => run_owned::<BytesT>(c, st),
         T01::RcGraph => run_owned::<RcG>(c, st),
         T01::Borrowed => run_borrowed(c),
+        T01::NoOp => run_owned::<NoOpT>(c, st),
     };
     if matches!(c.target, T01::Fam(Target::Cfg)) {
         obs.extend(run_valid(c));
@@ -789,13 +801,14 @@ pub fn total(tier: Tier) -> u64 {
         }
 }
 
-const ALL_T01: [T01; 8] = [
+const ALL_T01: [T01; 9] = [
     T01::DeepSeq,
     T01::DeepMap,
     T01::DeepEnum,
     T01::Bytes,
     T01::RcGraph,
     T01::Borrowed,
+    T01::NoOp,
     T01::Fam(Target::Json),
     T01::Fam(Target::Cfg),
 ];
@@ -846,7 +859,7 @@ pub fn gen_case(tier: Tier, seed: u64, idx: u64) -> Case {
         _ => Target::Json,
     };
     let mut origin = Vec::new();
-    let pick = rng.below(19);
+    let pick = rng.below(20);
     // `!!binary` payloads go to the targets that decode them, validation documents to the validated struct
     let (target, fam) = match pick {
         12 => {
@@ -922,6 +935,22 @@ pub fn gen_case(tier: Tier, seed: u64, idx: u64) -> Case {
         16 => {
             origin.push("tagged".to_string());
             tagged_doc(&mut rng)
+        }
+        18 => {
+            origin.push("numeric-looking".to_string());
+            // scalars that start like numbers and go on with units, currency, function calls and operators
+            // (with `angle_conversions` the float parser also evaluates deg(..) / rad(..) and arithmetic)
+            const HEAD: [&str; 12] = ["1", "12", "180", "-123", "+7", "1.5", ".5", "0x1F", "1e3", "0", "deg(", "rad("];
+            const TAIL: [&str; 18] = ["°", "€", "µ", "é", "日", "😀", ")", "(", "pi", "*2", "/0", "+", "e", "_", ".", " deg", "\u{a0}", ""];
+            let mut s = String::new();
+            for i in 0..rng.range(1, 6) {
+                let mut v = rng.pick(&HEAD).to_string();
+                for _ in 0..rng.below(4) {
+                    v.push_str(*rng.pick(&TAIL));
+                }
+                s.push_str(&format!("k{i}: {v}\n"));
+            }
+            s
         }
         17 => {
             origin.push("alias-type-error".to_string());
@@ -1037,6 +1066,9 @@ pub fn gen_case(tier: Tier, seed: u64, idx: u64) -> Case {
         opts.alias_limits.max_total_replayed_events = *rng.pick(&[0, 1, 10, 1_000_000]);
         opts.alias_limits.max_replay_stack_depth = *rng.pick(&[0, 1, 64]);
         opts.alias_limits.max_alias_expansions_per_anchor = *rng.pick(&[0, 1, usize::MAX]);
+    }
+    if pick == 18 && rng.chance(2, 3) {
+        opts.angle_conversions = true;
     }
     if opts.budget.is_none() && bytes.len() > 4000 {
         // without a budget the depth of the input is the caller's business (the statement ties the stack
